@@ -71,9 +71,22 @@ def gen_scenarios(seed, tier):
                 for op in ops:
                     if op[0] == "addcb" and op[2] == "submit":
                         op[2] = "raise"
+        # a raising done-callback followed by further callbacks on the same future: the fault must not stop the others
+        if idx_of(d) % 3 == 0:
+            for ops in d["clients"]:
+                extra = []
+                for op in ops:
+                    extra.append(op)
+                    if op[0] == "submit" and rng.random() < 0.7:
+                        extra += [["addcb", op[1], "raise"], ["addcb", op[1], "plain"], ["addcb", op[1], "slow"]]
+                ops[:] = extra
         # the probe: a fresh submission long after the faults, which must be served
         d["clients"].append([["sleep", 45.0], ["submit", "probe", [[["ret", 4242]]]], ["result", "probe", 10.0]])
         yield d
+
+
+def idx_of(d):
+    return d.get("idx", 0)
 
 
 def monitors(s, ctx, desc):
@@ -100,8 +113,11 @@ def monitors(s, ctx, desc):
 
 
 def run_one(desc):
-    s, ctx, out = sc.run_stack(desc, props=("C18", "C03"))
+    s, ctx, out = sc.run_stack(desc, props=("C18", "C03", "C02"))
     hits = [h for h in out.get("C18", [])] + monitors(s, ctx, desc)
+    if any(e[1] == "uraise" or (e[1] == "cbrun") for e in s.log):
+        # a fault in one callback (or anywhere) must not keep OTHER done-callbacks from running
+        hits += [hit("C18/callback-fault-stops-others", h["detail"]) for h in out.get("C02", []) if h["sig"] == "C02/callback-never"]
     hits += [h for h in out.get("C03", []) if h["sig"] == "C03/livelock"]
     nfault = sum(1 for e in s.log if e[1] in ("uraise", "pollraise", "policy!"))
     return {"hits": hits, "blocks": [], "verdicts": [], "schedule": list(s.chooser.record),
